@@ -87,23 +87,23 @@ theorem resume_pages_state (s : State) (p : PagesSt) : ((CoSt.pages p).resume s)
 theorem resume_net_state (s : State) (n : NetSt) : ((CoSt.net n).resume s).1 = s := rfl
 
 theorem resume_pages_out (s : State) (p : PagesSt) :
-    ((CoSt.pages p).resume s).2.2 = (pagesResume (s.trie.size + p.prefixes.length + 2) s p).2 := by
-  rcases h : pagesResume (s.trie.size + p.prefixes.length + 2) s p with ⟨p1, o⟩
+    ((CoSt.pages p).resume s).2.2 = (pagesResume ((s.trie.size + 1) * (p.prefixes.length + 1)) s p).2 := by
+  rcases h : pagesResume ((s.trie.size + 1) * (p.prefixes.length + 1)) s p with ⟨p1, o⟩
   simp only [CoSt.resume, h]
 
 theorem resume_pages_yielded (s : State) (p : PagesSt)
-    (ho : (pagesResume (s.trie.size + p.prefixes.length + 2) s p).2 = .yielded) :
-    ((CoSt.pages p).resume s).2.1 = .pages (pagesResume (s.trie.size + p.prefixes.length + 2) s p).1 := by
-  rcases h : pagesResume (s.trie.size + p.prefixes.length + 2) s p with ⟨p1, o⟩
+    (ho : (pagesResume ((s.trie.size + 1) * (p.prefixes.length + 1)) s p).2 = .yielded) :
+    ((CoSt.pages p).resume s).2.1 = .pages (pagesResume ((s.trie.size + 1) * (p.prefixes.length + 1)) s p).1 := by
+  rcases h : pagesResume ((s.trie.size + 1) * (p.prefixes.length + 1)) s p with ⟨p1, o⟩
   rw [h] at ho
   simp only at ho
   subst ho
   simp only [CoSt.resume, h]
 
 theorem resume_pages_stopped (s : State) (p : PagesSt)
-    (ho : (pagesResume (s.trie.size + p.prefixes.length + 2) s p).2 ≠ .yielded) :
+    (ho : (pagesResume ((s.trie.size + 1) * (p.prefixes.length + 1)) s p).2 ≠ .yielded) :
     ((CoSt.pages p).resume s).2.1 = .finished := by
-  rcases h : pagesResume (s.trie.size + p.prefixes.length + 2) s p with ⟨p1, o⟩
+  rcases h : pagesResume ((s.trie.size + 1) * (p.prefixes.length + 1)) s p with ⟨p1, o⟩
   rw [h] at ho
   cases o with
   | yielded => exact absurd rfl ho
@@ -283,12 +283,12 @@ theorem resume_sec {s : State} {t : T} (h : Shape s t) (c : CoSt) : ∃ t', CoSe
       rfl
   | pages p =>
     refine ⟨t, Ext.refl h, Le.refl s, CoLinkStep.refl s, fun ok _ => ⟨ok, ?_, fun _ _ hw => absurd hw id⟩, fun hi hc => ?_⟩
-    · by_cases ho : (pagesResume (s.trie.size + p.prefixes.length + 2) s p).2 = .yielded
+    · by_cases ho : (pagesResume ((s.trie.size + 1) * (p.prefixes.length + 1)) s p).2 = .yielded
       · rw [resume_pages_yielded s p ho]; trivial
       · rw [resume_pages_stopped s p ho]; trivial
-    obtain ⟨hy, hd, hf⟩ := pagesResume_ok (s.trie.size + p.prefixes.length + 2) s t p h hi hc
+    obtain ⟨hy, hd, hf⟩ := pagesResume_ok ((s.trie.size + 1) * (p.prefixes.length + 1)) s t p h hi hc
     refine ⟨[], [], Adds.refl hi, rfl, ?_, ?_, fun _ _ => rfl, fun _ _ hw => absurd hw id, ?_, ?_⟩
-    · by_cases ho : (pagesResume (s.trie.size + p.prefixes.length + 2) s p).2 = .yielded
+    · by_cases ho : (pagesResume ((s.trie.size + 1) * (p.prefixes.length + 1)) s p).2 = .yielded
       · rw [resume_pages_yielded s p ho]; exact hy ho
       · rw [resume_pages_stopped s p ho]; trivial
     · intro ho
